@@ -68,8 +68,8 @@ func addCfg(c *propCfg) {
 func init() {
 	addCfg(&propCfg{ID: "C02", Level: "exploration", Quick: 40000, Thorough: 3000000,
 		Rule: "one world per seed index: tape-generated IDL + 1-4 JSON documents rendered from model values with spelling variation, each converted under 2-4 tape-chosen environments (Do/DoInto, output capacity relative to len(json), prefix, canary/guard-page placement, FSM scratch-cache capacities, pool recycling, GC+clobber at yields, SIMD flavour) and compared with a harness-owned reference Thrift encoder. distinct_nontrivial = number of distinct environment signatures (set of knob values x capacity class x SIMD flavour x re-entry kinds fired) among worlds in which at least one non-default environment decision was taken"})
-	addCfg(&propCfg{ID: "C16", Level: "exploration", Quick: 40000, Thorough: 3000000,
-		Rule: "one world per seed index: IDL with mixed requiredness/defaults/ids beyond 64 and 256, parse options SetOptionalBitmap x UseDefaultValue, one of the 16 write/disallow option combinations; 1-4 inputs presenting a tape-chosen subset of fields (absent / null / present, incl. missing required, unknown members); sub-world j2t (native FSM with shaped ReqsCache so ERR_OOM_BM re-entry fires, dirty pooled bitmaps, failing conversion right before), t2j, or cutting (Value.MarshalTo onto an identical descriptor); oracle = requiredness truth-table model. distinct_nontrivial = distinct (sub-world x option combination x knob x capacity class x flavour) signatures"})
+	addCfg(&propCfg{ID: "C16", Level: "exploration", Quick: 40000, Thorough: 3000000, Builds: []string{"native", "portable"},
+		Rule: "one world per seed index: IDL with mixed requiredness/defaults/ids beyond 64 and 256, parse options SetOptionalBitmap x UseDefaultValue, one of the 16 write/disallow option combinations; 1-4 inputs presenting a tape-chosen subset of fields (absent / null / present, incl. missing required, unknown members); sub-world j2t (native FSM with shaped ReqsCache so ERR_OOM_BM re-entry fires, dirty pooled bitmaps, failing conversion right before), t2j, or cutting (Value.MarshalTo onto an identical descriptor); oracle = requiredness truth-table model. distinct_nontrivial = distinct (sub-world x option combination x knob x capacity class x flavour) signatures. The same worlds run a second time in the portable build (conv/j2t/impl_fallback.go instead of the native FSM; same truth-table oracle)"})
 	addCfg(&propCfg{ID: "C04", Level: "exploration", Quick: 40000, Thorough: 3000000,
 		Rule: "one world per seed index: tape-generated IDL and value; 1-4 handles (origin as Node or Value, forks taken at tape-chosen moments); a history of 3-24 steps of SetByPath (existing / insert absent field, map key, one-past-the-end index), SetMany, ReplaceByPath, UnsetByPath (existing / absent), id- and name-addressed, with injected failing operations (wrong-kind path, type-mismatching replacement, error node) and GC+clobber at yields; after every step every live handle is decoded by the harness decoder and compared with its model tree. distinct_nontrivial = distinct (handle count x root kind x op-kind multiset) signatures"})
 	addCfg(&propCfg{ID: "C05", Level: "exploration", Quick: 30000, Thorough: 2000000,
@@ -818,8 +818,12 @@ func cmdCheck(args []string) int {
 	var ovst *overlayStats
 	tree := ""
 	truncated := false
+	builds := cfg.Builds
+	if e := os.Getenv("VERIF_BUILDS"); e != "" { // experiments only: not used by any registered command
+		builds = strings.Split(e, ",")
+	}
 	var specs []runSpec
-	for _, b := range cfg.Builds {
+	for _, b := range builds {
 		if len(cfg.Simd) == 0 || b != "native" {
 			specs = append(specs, runSpec{b, "tape"})
 		} else {
